@@ -6,6 +6,8 @@ import (
 	"go/token"
 	"fmt"
 	"go/types"
+	"sort"
+	"strconv"
 	"strings"
 
 	"golang.org/x/tools/go/ssa"
@@ -460,7 +462,82 @@ const defaultMax = 5 * 1024 * 1024
 
 // how maybeDeflate's callers express the requested limit and (when it is not the built-in constant) the default: access
 // paths from its parameters, discovered on its own paths and evaluated at every call site by limitOf.
-var reqExpr, defExpr Val
+//
+// inflateUnit: one function whose paths hold both a decompressor and the decode of what it produced. The tree has one
+// (maybeDeflate); a specialised sibling, or the callers of a helper that only inflates and hands the bytes back, are
+// units of their own and answer to the same rules.
+type inflateUnit struct {
+	fn       *ssa.Function
+	req, def Val             // how callers express the requested limit / the default (nil: the unit has none)
+	limits   map[string]bool // the limits its inflating paths select: "$maxSize", "default" -> "5242880", a constant
+}
+
+// handsBackInflated: f returns bytes or a reader — a step that inflates for its callers rather than decoding itself.
+func handsBackInflated(f *ssa.Function) bool {
+	// a routine that decodes on its own paths is a unit whatever else it returns
+	for _, p := range f.Params {
+		if isDecoderSig(p.Type()) {
+			return false
+		}
+	}
+	if callsDirectly(f, "encoding/xml.Unmarshal", 0) || callsDirectly(f, "(*github.com/beevik/etree.Document).ReadFromBytes", 0) {
+		return false
+	}
+	rs := f.Signature.Results()
+	for i := 0; i < rs.Len(); i++ {
+		switch ts := typeStr(rs.At(i).Type()); ts {
+		case "[]byte", "io.Reader", "io.ReadCloser", "*bytes.Buffer", "*bytes.Reader", "string":
+			return true
+		}
+	}
+	return false
+}
+
+func discoverInflateUnits(c *Ctx, isDecomp func(string) bool) ([]*inflateUnit, map[*ssa.Function]bool) {
+	steps := map[*ssa.Function]bool{}
+	seen := map[*ssa.Function]bool{}
+	var fns []*ssa.Function
+	var add func(f *ssa.Function, depth int)
+	add = func(f *ssa.Function, depth int) {
+		if f == nil || seen[f] {
+			return
+		}
+		seen[f] = true
+		callers := c.P.callerIndex()[f]
+		if depth < 3 && handsBackInflated(f) && len(callers) > 0 {
+			steps[f] = true
+			for cc := range callers {
+				add(topFn(cc), depth+1)
+			}
+			return
+		}
+		fns = append(fns, f)
+	}
+	scanCalls(c.P, c.P.LibFns, isDecomp, func(s callSite) { add(topFn(s.Caller), 0) })
+	sort.Slice(fns, func(i, j int) bool { return fns[i].String() < fns[j].String() })
+	var out []*inflateUnit
+	for _, f := range fns {
+		out = append(out, &inflateUnit{fn: f, limits: map[string]bool{}})
+	}
+	return out, steps
+}
+
+// decodeAttempt: a call that decodes bytes — the decoder callback, or encoding/xml / etree decoding directly. It yields
+// the identity of the decoder, the bytes it is given and its error result.
+func decodeAttempt(e *Event) (id string, input Val, ok bool) {
+	if e.Kind != EvCall {
+		return "", nil, false
+	}
+	switch {
+	case strings.HasPrefix(e.Callee, "dynamic:") && len(e.Args) == 2 && isDecoderSig(e.Args[0].Type()):
+		return e.Args[0].Key(), e.Args[1], true
+	case e.Callee == "encoding/xml.Unmarshal" && len(e.Args) == 2:
+		return e.Callee + " into " + typeStr(e.Args[1].Type()), e.Args[0], true
+	case shortName(e.Callee) == "(*etree.Document).ReadFromBytes" && len(e.Args) == 2:
+		return shortName(e.Callee), e.Args[1], true
+	}
+	return "", nil, false
+}
 
 func ruleC12(c *Ctx) {
 	c.rule("C12-R1", "who-may-call: decompressor constructors (flate/zlib/gzip/bzip2/lzw readers) occur exactly once in library scope, inside maybeDeflate (positive control must fire)")
@@ -480,8 +557,14 @@ func ruleC12(c *Ctx) {
 		}
 		return false
 	}
+	units, steps := discoverInflateUnits(c, isDecomp)
+	unitOf := map[*ssa.Function]*inflateUnit{}
+	for _, u := range units {
+		unitOf[u.fn] = u
+	}
 	n := scanCalls(c.P, c.P.LibFns, isDecomp, func(s callSite) {
-		c.check(c.P.withinOnly(s.Caller, allowNames("maybeDeflate")), "C12-R1", shortFn(s.Caller), "call "+s.Callee, c.P.InstrPos(s.Instr), "inside maybeDeflate (or a helper only it calls)", "input is decompressed outside maybeDeflate (no size bound)")
+		tf := topFn(s.Caller)
+		c.check(unitOf[tf] != nil || steps[tf], "C12-R1", shortFn(s.Caller), "call "+s.Callee, c.P.InstrPos(s.Instr), "inside an inflate routine that R2–R4 analyse (maybeDeflate, or a sibling / helper of it)", "input is decompressed outside the analysed inflate routines (no size bound)")
 	})
 	c.count("C12-R1/decompressors", n)
 	c.floor("C12-R1/decompressors", 1)
@@ -492,11 +575,13 @@ func ruleC12(c *Ctx) {
 		c.bad("C12-R1", "controls/rawinflate", "positive control", "-", "matcher did not flag the control that inflates without bound")
 	}
 
-	md := c.kernel("maybeDeflate", "*")
-	if md != nil {
+	nSecond := 0
+	for _, u := range units {
+		md := c.kernelFn(u.fn, "*")
+		if md == nil {
+			continue
+		}
 		fname := shortFn(md.Root)
-		nSecond := 0
-		reqExpr, defExpr = nil, nil
 		// the error result (the helper may also hand back the bytes it decoded)
 		errIdx := -1
 		for i, rs := 0, md.Root.Signature.Results(); i < rs.Len(); i++ {
@@ -522,24 +607,51 @@ func ruleC12(c *Ctx) {
 					lim = e
 				case e.Callee == "io.ReadAll":
 					ra = e
-				case strings.HasPrefix(e.Callee, "dynamic:") && len(e.Args) == 2 && isDecoderSig(e.Args[0].Type()):
-					decs = append(decs, e)
+				default:
+					if _, _, isDec := decodeAttempt(e); isDec && (fl == nil || ra != nil) {
+						decs = append(decs, e)
+					}
 				}
 			}
 			pos := c.P.InstrPos(t.Instr)
 			if len(decs) == 0 {
+				// an entry point that spells the attempts out itself also has the rejections that precede them (the base64
+				// layer failed): nothing was inflated and nothing is accepted
+				hasDecoderParam := false
+				for _, p := range md.Root.Params {
+					if isDecoderSig(p.Type()) {
+						hasDecoderParam = true
+					}
+				}
+				if !hasDecoderParam && fl == nil && t.Kind == "return" && !t.accepting(md.Root) && errIdx < len(t.Vals) && t.errNonNil(t.Vals[errIdx]) {
+					continue
+				}
 				c.bad("C12-R4", fname, "first attempt", pos, "a path does not invoke the decoder at all")
 				continue
 			}
 			firstOK := false
-			if dp, isP := decs[0].Args[0].(*ParamV); isP {
-				if _, isFn := dp.Type().Underlying().(*types.Signature); isFn {
-					if bp, isP2 := decs[0].Args[1].(*ParamV); isP2 && typeStr(bp.Type()) == "[]byte" {
-						firstOK = true
+			d1id, d1in, _ := decodeAttempt(decs[0])
+			if strings.HasPrefix(decs[0].Callee, "dynamic:") {
+				// the decoder the caller handed in, over the bytes the caller handed in
+				if dp, isP := decs[0].Args[0].(*ParamV); isP {
+					if _, isFn := dp.Type().Underlying().(*types.Signature); isFn {
+						if bp, isP2 := d1in.(*ParamV); isP2 && typeStr(bp.Type()) == "[]byte" {
+							firstOK = true
+						}
+					}
+				}
+			} else {
+				// decoding spelled out in the unit: over the caller's bytes, or their base64 decoding
+				switch x := d1in.(type) {
+				case *ParamV:
+					firstOK = typeStr(x.Type()) == "[]byte"
+				case *CallV:
+					if x.Idx == 0 && strings.HasSuffix(x.Callee, "Encoding).DecodeString") && len(x.Args) == 2 {
+						_, firstOK = x.Args[1].(*ParamV)
 					}
 				}
 			}
-			c.check(firstOK, "C12-R4", fname, "first attempt decodes the caller's bytes", c.P.InstrPos(decs[0].Instr), "decoder(data)", "first attempt is "+ap(decs[0].Args[0])+"("+ap(decs[0].Args[1])+")")
+			c.check(firstOK, "C12-R4", fname, "first attempt decodes the caller's bytes", c.P.InstrPos(decs[0].Instr), "decoder(data)", "first attempt is "+d1id+"("+ap(d1in)+")")
 			if fl == nil {
 				// no inflate on this path: the first-attempt success — or a rejection under a negative limit, within which no
 				// compressed message lies
@@ -608,16 +720,26 @@ func ruleC12(c *Ctx) {
 				if !isBin || b.Op != token.EQL || !isConstInt(b.Y, 0) || !fromParam(b.X) || !isIntType(b.X.Type()) {
 					continue
 				}
-				if reqExpr == nil {
-					reqExpr = b.X
+				if u.req == nil {
+					u.req = b.X
 				}
-				if b.X.Key() != reqExpr.Key() {
+				if b.X.Key() != u.req.Key() {
 					continue
 				}
 				if f.Pol {
 					maxAP = "default"
 				} else {
 					maxAP, maxVal = "$maxSize", b.X
+				}
+			}
+			// a unit specialised to one limit: N = constant + 1, nothing requested by the caller
+			if maxAP == "" && u.req == nil {
+				if nb, isAdd := limN.(*BinV); isAdd && nb.Op == token.ADD && isConstInt(nb.Y, 1) {
+					if _, isC := constInt(nb.X); isC {
+						maxAP = "constant"
+					}
+				} else if _, isC := constInt(limN); isC {
+					maxAP = "constant"
 				}
 			}
 			if maxAP == "" {
@@ -637,6 +759,10 @@ func ruleC12(c *Ctx) {
 			switch maxAP {
 			case "$maxSize":
 				goodN = lv != nil && lv.Key() == maxVal.Key()
+			case "constant":
+				// whatever the constant is, it is the limit of this unit; R5 compares it with what each entry point must apply
+				k, _ := constInt(lv)
+				goodN, maxAP, maxVal = true, fmt.Sprint(k), lv
 			default:
 				// the default: the 5 MiB constant, or a value the callers hand in (checked to be that constant at every call site)
 				if lv != nil {
@@ -645,16 +771,17 @@ func ruleC12(c *Ctx) {
 						maxAP = fmt.Sprint(defaultMax)
 					} else if fromParam(lv) {
 						goodN = true
-						if defExpr == nil {
-							defExpr = lv
+						if u.def == nil {
+							u.def = lv
 						}
-						goodN = defExpr.Key() == lv.Key()
+						goodN = u.def.Key() == lv.Key()
 						maxAP = fmt.Sprint(defaultMax)
 					}
 					maxVal = lv
 				}
 			}
 			c.check(goodN, "C12-R2", fname, "LimitReader bound is max+1 ["+maxAP+"]", c.P.InstrPos(limInstr), "N = "+wantN, "LimitReader bound is "+ap(limN)+", which is not (the limit selected on this path) + 1")
+			u.limits[maxAP] = true
 			if okFlow {
 				c.ok("C12-R2", fname, "only the limited reader is read ["+maxAP+"]", c.P.InstrPos(fl.Instr), "flate reader -> LimitReader -> ReadAll")
 			}
@@ -666,7 +793,8 @@ func ruleC12(c *Ctx) {
 			if len(decs) == 2 {
 				nSecond++
 				d2 := decs[1]
-				c.check(d2.Args[0].Key() == decs[0].Args[0].Key() && d2.Args[1].Key() == out.Key(), "C12-R4", fname, "second attempt: same decoder over the inflated bytes ["+maxAP+"]", c.P.InstrPos(d2.Instr), "decoder(deflated)", "second attempt is "+ap(d2.Args[0])+"("+ap(d2.Args[1])+")")
+				d2id, d2in, _ := decodeAttempt(d2)
+				c.check(d2id == d1id && d2in.Key() == out.Key(), "C12-R4", fname, "second attempt: same decoder over the inflated bytes ["+maxAP+"]", c.P.InstrPos(d2.Instr), "decoder(deflated)", "second attempt is "+d2id+"("+ap(d2in)+")")
 				b := newBounds(t, d2.Seq)
 				var mx lin
 				if maxVal != nil {
@@ -699,9 +827,9 @@ func ruleC12(c *Ctx) {
 				c.check(t.errNonNil(t.Vals[errIdx]), "C12-R3", fname, "over-limit / read failure returns an error ["+maxAP+"]", pos, ap(t.Vals[errIdx]), "path ends without decoding and without a non-nil error: "+ap(t.Vals[errIdx]))
 			}
 		}
-		c.count("C12-R3/second-decodes", nSecond)
-		c.floor("C12-R3/second-decodes", 2)
 	}
+	c.count("C12-R3/second-decodes", nSecond)
+	c.floor("C12-R3/second-decodes", 2)
 
 	// R4c the pre-decoders' callbacks decode the bytes they are handed (second attempt: the inflated ones)
 	for _, fn := range []string{"DecodeUnverifiedBaseResponse", "DecodeUnverifiedLogoutResponse"} {
@@ -722,7 +850,30 @@ func ruleC12(c *Ctx) {
 	// validators and of decryptAssertions passes sp.MaximumDecompressedBodySize; parseResponse hands its own limit on;
 	// the pre-decoders pass the 5 MiB constant.
 	nSites := 0
+	// the inlining set that keeps the inflate units as calls
+	unitName := map[string]*inflateUnit{}
+	exclUnits := []string{"*"}
+	for _, u := range units {
+		unitName[shortFn(u.fn)] = u
+		exclUnits = append(exclUnits, "-"+shortFn(u.fn))
+	}
+	// limitOf: the limit kernel <kname> applies — at its calls of <callee> (parseResponse, or "" = any inflate unit), or,
+	// when <kname> is itself an inflate unit, the limit its own inflating paths select.
 	limitOf := func(kname string, inline []string, callee string, want string) {
+		if callee == "" {
+			if f := c.P.Fn(kname); f != nil && unitOf[f] != nil {
+				u := unitOf[f]
+				okAll := len(u.limits) > 0
+				for l := range u.limits {
+					if l != want && !(u.req != nil && ap(u.req) == want && (l == "$maxSize" || l == fmt.Sprint(defaultMax))) {
+						okAll = false
+					}
+				}
+				c.check(okAll, "C12-R5", shortFn(f), "limit applied by "+shortFn(f)+" itself", c.P.Pos(f.Pos()), want, fmt.Sprintf("inflates under the limit(s) %v, want %s", sortedStrings(u.limits), want))
+				nSites++
+				return
+			}
+		}
 		r := c.kernel(kname, inline...)
 		if r == nil {
 			return
@@ -730,27 +881,47 @@ func ruleC12(c *Ctx) {
 		seen := 0
 		for _, t := range r.Terms {
 			for _, e := range t.St.events {
-				if (e.Kind == EvCall || e.Kind == EvEnter) && shortName(e.Callee) == callee && len(e.Args) >= 2 {
-					seen++
-					got := e.Args[1]
-					if callee == "maybeDeflate" && reqExpr != nil {
-						got = atCallSite(t, reqExpr, e.Args)
-						if defExpr != nil {
-							d := atCallSite(t, defExpr, e.Args)
-							c.check(d != nil && ap(d) == fmt.Sprint(defaultMax), "C12-R5", shortFn(r.Root), "default limit handed to "+callee, c.P.InstrPos(e.Instr), fmt.Sprint(defaultMax), "the fallback limit passed is "+apOrNone(d)+", want the 5 MiB default")
+				if (e.Kind != EvCall && e.Kind != EvEnter) || len(e.Args) < 2 {
+					continue
+				}
+				sn := shortName(e.Callee)
+				u := unitName[sn]
+				if (callee != "" && sn != callee) || (callee == "" && u == nil) {
+					continue
+				}
+				seen++
+				var got Val
+				if callee != "" {
+					got = e.Args[1]
+				} else if u.req != nil {
+					got = atCallSite(t, u.req, e.Args)
+					if u.def != nil {
+						d := atCallSite(t, u.def, e.Args)
+						c.check(d != nil && ap(d) == fmt.Sprint(defaultMax), "C12-R5", shortFn(r.Root), "default limit handed to "+sn, c.P.InstrPos(e.Instr), fmt.Sprint(defaultMax), "the fallback limit passed is "+apOrNone(d)+", want the 5 MiB default")
+					}
+				} else {
+					// a unit with one built-in limit
+					ls := sortedStrings(u.limits)
+					if len(ls) == 1 {
+						if k, err := strconv.ParseInt(ls[0], 10, 64); err == nil {
+							got = intV(k)
 						}
 					}
-					okLimit := got != nil && ap(got) == want
-					if !okLimit && got != nil && want == "SP.MaximumDecompressedBodySize" && ap(got) == fmt.Sprint(defaultMax) && t.atoms()[want+" == 0"] {
-						// the default applied one call earlier: maybeDeflate would have replaced the 0 by the same constant
-						okLimit = true
-					}
-					c.check(okLimit, "C12-R5", shortFn(r.Root), "limit passed to "+callee, c.P.InstrPos(e.Instr), want, "limit is "+apOrNone(got)+", want "+want)
 				}
+				okLimit := got != nil && ap(got) == want
+				if !okLimit && got != nil && want == "SP.MaximumDecompressedBodySize" && ap(got) == fmt.Sprint(defaultMax) && t.atoms()[want+" == 0"] {
+					// the default applied one call earlier: maybeDeflate would have replaced the 0 by the same constant
+					okLimit = true
+				}
+				c.check(okLimit, "C12-R5", shortFn(r.Root), "limit passed to "+sn, c.P.InstrPos(e.Instr), want, "limit is "+apOrNone(got)+", want "+want)
 			}
 		}
+		what := callee
+		if what == "" {
+			what = "maybeDeflate"
+		}
 		if seen == 0 {
-			c.bad("C12-R5", shortFn(r.Root), "routes through "+callee, c.P.Pos(r.Root.Pos()), "no path of "+shortFn(r.Root)+" reaches "+callee)
+			c.bad("C12-R5", shortFn(r.Root), "routes through "+what, c.P.Pos(r.Root.Pos()), "no path of "+shortFn(r.Root)+" reaches "+what)
 		} else {
 			nSites++
 		}
@@ -759,15 +930,23 @@ func ruleC12(c *Ctx) {
 		limitOf(spec.Entry, inboundInline, "parseResponse", "SP.MaximumDecompressedBodySize")
 	}
 	limitOf("(*SAMLServiceProvider).decryptAssertions", []string{"*", "-(*SAMLServiceProvider).getDecryptCert", "-types.(*EncryptedAssertion).DecryptBytes", "-parseResponse"}, "parseResponse", "SP.MaximumDecompressedBodySize")
-	limitOf("parseResponse", []string{"*", "-maybeDeflate"}, "maybeDeflate", "$maxSize")
-	limitOf("DecodeUnverifiedBaseResponse", []string{"*", "-maybeDeflate"}, "maybeDeflate", fmt.Sprint(defaultMax))
-	limitOf("DecodeUnverifiedLogoutResponse", []string{"*", "-maybeDeflate"}, "maybeDeflate", fmt.Sprint(defaultMax))
+	limitOf("parseResponse", exclUnits, "", "$maxSize")
+	limitOf("DecodeUnverifiedBaseResponse", exclUnits, "", fmt.Sprint(defaultMax))
+	limitOf("DecodeUnverifiedLogoutResponse", exclUnits, "", fmt.Sprint(defaultMax))
 	c.count("C12-R5/limit-kernels", nSites)
 	c.floor("C12-R5/limit-kernels", 7)
-	// no other caller of the two routines
-	scanCalls(c.P, c.P.LibFns, func(s string) bool { return shortName(s) == "maybeDeflate" }, func(s callSite) {
+	// no other caller of the routines
+	isUnit := func(s string) bool { return unitName[shortName(s)] != nil }
+	scanCalls(c.P, c.P.LibFns, isUnit, func(s callSite) {
+		if unitOf[topFn(s.Caller)] != nil {
+			return // one unit delegating to another: analysed as part of the caller's own paths
+		}
 		okCaller := c.P.withinOnly(s.Caller, allowNames("parseResponse", "DecodeUnverifiedBaseResponse", "DecodeUnverifiedLogoutResponse"))
 		why := "analysed caller"
+		u := unitName[shortName(s.Callee)]
+		if !okCaller && u != nil && u.req == nil && len(u.limits) == 1 && u.limits[fmt.Sprint(defaultMax)] {
+			okCaller, why = true, "the routine has the default limit built in"
+		}
 		if !okCaller && len(s.Instr.Common().Args) >= 2 {
 			// any other caller: the limit it passes is the default, the configured limit, or its own parameter for which the
 			// same holds at every call site
@@ -775,7 +954,7 @@ func ruleC12(c *Ctx) {
 				okCaller, why = true, "limit argument is "+w
 			}
 		}
-		c.check(okCaller, "C12-R5", shortFn(s.Caller), "caller of maybeDeflate", c.P.InstrPos(s.Instr), why, "new caller of maybeDeflate: its limit is not analysed")
+		c.check(okCaller, "C12-R5", shortFn(s.Caller), "caller of maybeDeflate", c.P.InstrPos(s.Instr), why, "new caller of "+shortName(s.Callee)+": its limit is not analysed")
 	})
 	scanCalls(c.P, c.P.LibFns, func(s string) bool { return shortName(s) == "parseResponse" }, func(s callSite) {
 		okCaller := c.P.withinOnly(s.Caller, allowNames(ssoSpec.Entry, loRespSpec.Entry, loReqSpec.Entry, "(*SAMLServiceProvider).decryptAssertions"))
@@ -784,20 +963,19 @@ func ruleC12(c *Ctx) {
 		}
 		c.check(okCaller, "C12-R5", shortFn(s.Caller), "caller of parseResponse", c.P.InstrPos(s.Instr), "analysed caller", "new caller of parseResponse: its limit is not analysed")
 	})
-	// reachability of maybeDeflate from each inbound entry point
-	target := c.fn("maybeDeflate")
+	// reachability of an inflate routine from each inbound entry point
 	for _, r := range c09Roots[:6] {
 		f := c.fn(r)
-		if f == nil || target == nil {
+		if f == nil || len(units) == 0 {
 			continue
 		}
 		reach := false
 		for _, g := range moduleCone(c.P, []*ssa.Function{f}) {
-			if g == target {
+			if unitOf[g] != nil {
 				reach = true
 			}
 		}
-		c.check(reach, "C12-R5", shortFn(f), "entry point routes through maybeDeflate", c.P.Pos(f.Pos()), "reachable in the static call graph", "inbound entry point does not reach maybeDeflate: compressed input is not handled (or handled elsewhere)")
+		c.check(reach, "C12-R5", shortFn(f), "entry point routes through maybeDeflate", c.P.Pos(f.Pos()), "reachable in the static call graph", "inbound entry point does not reach an inflate routine: compressed input is not handled (or handled elsewhere)")
 	}
 	// base64 decode + no other byte->XML decode of caller bytes is C01-R5/R6's who-may-parse
 }
